@@ -519,7 +519,7 @@ class Oracle:
                 change = prev != value
             if change or new_entry:
                 expected_events.append((name, value, prev, change, cur_before))
-        if k == "drain" and cur_before is not None and players and self.shadow[cur_before - 1].get("extra_balls", 0):
+        if k in ("drain", "drainw") and cur_before is not None and players and self.shadow[cur_before - 1].get("extra_balls", 0):
             sh = self.shadow[cur_before - 1]
             expected_events.append(("extra_balls", sh["extra_balls"] - 1, sh["extra_balls"], -1, cur_before))
             sh["extra_balls"] -= 1
@@ -640,8 +640,9 @@ class Oracle:
                 self.fail("event:args", op=op, got=list(map(repr, e)), expected="ball +1 for the player whose turn starts")
             if k in ("start", "addplayer") and e[0] != "ball" and not (e[1] == e[2] and e[3] in (0, False)):
                 self.fail("event:args", op=op, got=list(map(repr, e)), expected="initial broadcast: value == prev_value")
+        ok_nums = {cur} | ({cur_before} if k == "drainw" and run.fired in POS_BEFORE else set())
         for name, value, num in run.dev_events:
-            if cur is not None and num != cur:
+            if cur is not None and num not in ok_nums:
                 self.fail("event:device-var-for-wrong-player", op=op, event="player_" + name, value=repr(value),
                           player_num=num, current_player=cur)
 
